@@ -12,7 +12,8 @@ Inductive tgt  := TPath | TPathObj | TStream | TStr.
 Inductive prs  := PMolli | PMolliUpper | PUnknown.
 
 Record cell := mk_cell { c_verb : verb; c_fmt : fmtc; c_fsrc : fsrc; c_otype : otyp;
-                         c_named : bool; c_tgt : tgt; c_prs : prs }.
+                         c_named : bool; c_tgt : tgt; c_prs : prs;
+                         c_dot : bool (* the file name has a dotted stem, e.g. in.put.v2.xyz *) }.
 
 Inductive exn := XUnsupported | XOther.           (* ValueError/NotImplementedError | anything else *)
 Inductive kls := KMol | KEns | KStruct | KEnsCls.
@@ -73,6 +74,7 @@ Definition spec (c : cell) : action :=
 
 (* the configuration space *)
 Definition valid (c : cell) : bool :=
+  (negb (c_dot c) || match c_tgt c with TPath | TPathObj => true | _ => false end) &&
   match c_verb c with
   | VLoad | VLoadAll => match c_tgt c with TPath | TPathObj => true | _ => false end
   | VLoads | VLoadsAll => match c_tgt c, c_fsrc c with TStr, FsExplicit => true | _, _ => false end
@@ -91,7 +93,7 @@ Definition all_prs := [PMolli; PMolliUpper; PUnknown].
 
 Definition product : list cell :=
   flat_map (fun v => flat_map (fun f => flat_map (fun s => flat_map (fun o => flat_map (fun n =>
-  flat_map (fun t => map (fun p => mk_cell v f s o n t p) all_prs) all_tgt) [false; true]) all_otyp)
+  flat_map (fun t => flat_map (fun p => map (fun d => mk_cell v f s o n t p d) [false; true]) all_prs) all_tgt) [false; true]) all_otyp)
   all_fsrc) all_fmts) all_verbs.
 Definition all_cells : list cell := filter valid product.
 
@@ -104,7 +106,7 @@ Scheme Equality for nm.
 Definition cell_eqb (a b : cell) : bool :=
   verb_beq (c_verb a) (c_verb b) && fmtc_beq (c_fmt a) (c_fmt b) && fsrc_beq (c_fsrc a) (c_fsrc b) &&
   otyp_beq (c_otype a) (c_otype b) && Bool.eqb (c_named a) (c_named b) && tgt_beq (c_tgt a) (c_tgt b) &&
-  prs_beq (c_prs a) (c_prs b).
+  prs_beq (c_prs a) (c_prs b) && Bool.eqb (c_dot a) (c_dot b).
 Definition meth_eqb (a b : meth) := verb_beq (fst a) (fst b) && fmtc_beq (snd a) (snd b).
 
 Fixpoint res_eqb (a b : res) {struct a} : bool :=
